@@ -472,7 +472,7 @@ func genScript(t *rapid.T) Script {
 		start.Payload = &v
 	}
 	sc.Elems = append(sc.Elems, start)
-	runs := []string{"r1", "r2", "r3"}
+	runs := []string{"r1", "r11", "r2"} // one ID is a prefix of another
 	gateN := 0
 	n := rapid.IntRange(1, 8).Draw(t, "nElems")
 	for i := 0; i < n; i++ {
